@@ -102,7 +102,8 @@ def standin(rep: Report):
         for word in ['--msg="""hello\nworld"""', "-v'''%s\n''' x", 'a"""b\n\nc\n"""d', 'pre$(ls\n  -l)post', "k=@(a,\n b)"]:
             srcs.append(f"x = {op}echo {word}{cl}\n")
             srcs.append(f"def f():\n    return {op}printf {word} @(y) done{cl}\n")
-    srcs = list(dict.fromkeys(srcs))
+    # every source also in its layout variants (CRLF, no final newline, tabs, form feed, leading comment): spans are layout-sensitive
+    srcs = list(dict.fromkeys(v for s in dict.fromkeys(srcs) for v in (pool.layouts(s) if len(s) < 400 else [s])))
     res = oracle.run("parse", [{"src": s, "mode": "exec", "compile": True, "unparse": True, "spans": True} for s in srcs])
     si = StandIn("compile-every-tree", f"{len(srcs)} sources (Python pool, xonsh pool, {len(sugar)} xonsh constructs x {len(ctx)} expression contexts, binding-target forms): "
                  "compile() must not report a malformed tree")
